@@ -129,7 +129,9 @@ def _judge(impl, what, exp, vs):
     if what == 'var':
         return abs(x - q) <= tol
     if x != x:
-        return q <= tol             # the float64 variance may round below zero only where the exact one is inside the rounding of its terms
+        # the float64 variance may round below zero only where the exact one is inside the rounding of its terms; where all three terms
+        # vanish exactly (no element repeated: vs = 0) the estimate is exactly 0.0 and so is its root (seeded change C06-r8m3)
+        return q <= tol and vs > 0
     return x >= 0 and (abs(x * x - q) <= tol or abs(x - math.sqrt(max(q, 0.0))) <= 1e-12 * math.sqrt(max(q, 0.0)))
 
 
@@ -391,6 +393,31 @@ def widened(ctx, st, pd):
     rng, quick = ctx.rng, ctx.quick
     J = _Jobs(ctx)
 
+    # (c9) samples with MISSING labels: NumPy's unique puts all NaN of a float sample into one category and pc counts them like any other
+    # element (N includes them, they coincide with each other); in a table a missing cell is an empty value IN ITS COLUMN, so
+    # ('x', missing) and (missing, 'x') are different rows (seeded changes C06-r8m1, C06-r8m2)
+    for t in range(10 if quick else 120):
+        K = rng.randint(2, 5)
+        cnt = [rng.choice([1, 2, 2, 3, 4]) for _ in range(K)]
+        vals = [float(i) + 0.5 for i in range(K - 1)] + [float('nan')]
+        sample = [vals[i] for i, c in enumerate(cnt) for _ in range(c)]
+        rng.shuffle(sample)
+        cont = ['ndarray', 'Series', 'list'][t % 3]
+        obj = np.array(sample, dtype=np.float64) if cont == 'ndarray' else pd.Series(sample, dtype='float64') if cont == 'Series' else list(sample)
+        J.add('missing labels', 'pc[float64 %s with a NaN category]' % cont, st.pc, (obj,), 'pc', counts=sorted(cnt, reverse=True),
+              desc='%s of %s' % (cont, sample), replay=dict(sample=[repr(x) for x in sample], container=cont))
+        if cont != 'list':
+            J.add('missing labels', 'stdpc[float64 %s with a NaN category]' % cont, st.stdpc, (obj,), 'std', counts=sorted(cnt, reverse=True),
+                  desc='%s of %s' % (cont, sample), replay=dict(sample=[repr(x) for x in sample], container=cont))
+        # rows: the same value in different columns, the other cell missing
+        rows = []
+        for v, c in zip(['CAVRF', 'CASSL', 'CAT'][:K], cnt):
+            rows += [(v, None)] * c + [(None, v)] * rng.choice([1, 2])
+        rows += [('CAVRF', 'CASSL')] * rng.choice([1, 2]) + [(None, None)] * rng.choice([0, 2])
+        rng.shuffle(rows)
+        dfm = pd.DataFrame({'CDR3A': [r[0] for r in rows], 'CDR3B': [r[1] for r in rows]})
+        J.add('missing labels', 'pc[DataFrame, missing cells in different columns]', st.pc, (dfm,), 'pc', counts=_counts_of(rows),
+              desc='DataFrame with rows %s' % _show_sample(rows), replay=dict(rows=[list(r) for r in rows]))
     # (d0) float count vectors that are whole numbers only up to round-off (frequencies times depth, e.g. 0.29 * 100 = 28.999999999999996):
     # pc_n is the formula on the numbers as given - nothing is truncated or rounded to integers on the way (seeded change C06-r7m3)
     for t in range(12 if quick else 150):
